@@ -169,8 +169,8 @@ CLAIMS.update({
         'called on real symbols of assorted versions and on adversarial matrices over a seeded grid of scale (incl. non-integer), border, colour sets '
         '(named, hex, tuples, alpha, transparent) and format options; the output is read back by independent format readers (signature, every chunk CRC, '
         'IHDR/PLTE/tRNS consistency, declared size == data, filter reconstruction) and every pixel is compared with the module it depicts; colourful PNG/PPM: '
-        'every module has the colour configured for its ISO type. Deductive: only the size / scale / border arithmetic (symbolic integers) and, in C11, the matrix '
-        'iteration kernel for every module of all 44 sizes.',
+        'every module has the colour configured for its ISO type. Deductive (small): the size / scale / border arithmetic (symbolic integers), the iteration kernel the writers draw '
+        'their rows from (matrix_iter for any size, scale, border; shared with C11) and the P4 row packing helper for every bit pattern of rows of 1..72 pixels.',
    note='The serialisers use zlib, struct, text codecs and streams: outside the reach of the deductive tool built here; stated as bounded in DESIGN.md. '
         'Trusted: spec/readers_raster.py.',
    technique='bounded stand-in: run-time contracts with independent format readers on an enumerated / seeded grid (deductive only for size arithmetic)',
